@@ -97,7 +97,8 @@ def gen(rng, tier):
   for _ in range(n):
     full = rng.choice(PROBES)
     scope = rng.choice(['', '', 's1', 's1/s2', 'S1'])
-    param = rng.choice(['a', 'b', 'c'])
+    # ('A' differs from 'a' in case only)
+    param = rng.choice(['a', 'b', 'c', 'A'])
     if (scope, full, param) in keys:
       continue
     keys.add((scope, full, param))
@@ -214,8 +215,8 @@ def run(case):
       g = {'__name__': 'ginsim_probes'}
       exec('class Tr:\n'  # pylint: disable=exec-used
            '  def __init__(self, k=0):\n    self.k = k\n'
-           "  def step(self, a='dflt', b='dflt', c='dflt'):\n"
-           "    return {'a': a, 'b': b, 'c': c}\n", g)
+           "  def step(self, a='dflt', b='dflt', c='dflt', A='dflt'):\n"
+           "    return {'a': a, 'b': b, 'c': c, 'A': A}\n", g)
       g['Tr'].step = gin.register(g['Tr'].step)
       gin.register(module=full.split('.')[0])(g['Tr'])
       return
@@ -223,7 +224,7 @@ def run(case):
     pyname = 'fn_' + full.replace('.', '_')
     obj, _ = probes.compile_probe(
         {'name': pyname, 'kind': 'fn',
-         'params': [{'n': p, 'k': 'def', 'd': 'dflt'} for p in 'abc']}, hook)
+         'params': [{'n': p, 'k': 'def', 'd': 'dflt'} for p in 'abcA']}, hook)
     gin.configurable(name, module=mod or 'rootmod')(obj)
 
   # the registrations that happen in the middle of the history: with or without
